@@ -1,7 +1,7 @@
 """C10 - configuration is applied faithfully; erroneous configuration is rejected whole"""
 from sa.core import rule, prop_info
 from sa.lib import *  # noqa: F401,F403
-from sa.lib import origins, local_assigns  # noqa
+from sa.lib import origins, local_assigns, exit_calls  # noqa
 from sa.lib import (attr_stores, func_calls, enclosing_tries, handler_reraises, handler_type_names, loop_anchor,
                     compare_ops, ReachingDefs)
 from sa.model import AnchorMissing
@@ -111,7 +111,7 @@ def server_tests_node_errors(ctx):
     ctx.analysed(f)
     cfg = CFG(f.node, m, f.module)
     rd = ReachingDefs(cfg, f.node)
-    tests = [n for n in body_walk(f.node) if isinstance(n, ast.If) and src(n.test) == 'errors' and any(call_name(c) == 'sys.exit' for c in calls_in(n))]
+    tests = [n for n in body_walk(f.node) if isinstance(n, ast.If) and src(n.test) == 'errors' and any(any(a is n for a in ancestors(c)) for c in exit_calls(m, f, cfg))]
     if not tests:
         raise AnchorMissing('`if errors: ... sys.exit` not found in _processCfg')
     for n in tests:
